@@ -158,6 +158,12 @@ func (c14) Gen(r *sim.Rand, tier string, run uint64) *sim.Scenario {
 			sc.Cfg["hookdetach"] = 1 // the first hook also detaches the Logger (tracing switched off from inside the run)
 		}
 	}
+	if kind == 0 && r.Chance(1, 5) {
+		// the host serves WDM calls, and its handler hands over to a second one on its first
+		// call (a two-phase protocol): which handler is installed after the run must not depend
+		// on tracing
+		sc.Cfg["wdmhost"] = 1
+	}
 	if kind == 2 && r.Chance(1, 6) {
 		sc.Cfg["forkbus"] = 1
 	} else if kind != 0 && r.Chance(1, 10) {
@@ -314,6 +320,15 @@ func c14sys(sc *sim.Scenario, env *sim.Env) *sim.Violation {
 		}
 	})
 	regsB := cpuA{&smB.S.CPU}.Regs()
+	if sc.C("wdmhost") != 0 && !pA && !pB {
+		// the next host call, whenever it comes, meets the handler the host left installed
+		for _, sm := range []*SysMachine{smA, smB} {
+			if h := sm.S.CPU.OnWDM; h != nil {
+				h(0x5A)
+			}
+		}
+		st.Probe("wdm_handler_replaces_itself")
+	}
 	st.SimCycles += regsA.AllCycles + regsB.AllCycles
 	env.ObsBool(pA)
 	env.ObsBool(retA)
@@ -471,6 +486,15 @@ func c14reupload(sm *SysMachine, sc *sim.Scenario) {
 // often than an untraced one leaves different memory.
 func c14hooks(sm *SysMachine, sc *sim.Scenario, st *sim.Stats) {
 	installHooks(&sm.S.CPU, nil)
+	sm.S.CPU.OnWDM = nil
+	if sc.C("wdmhost") != 0 {
+		s := sm.S
+		second := func(b byte) { s.WRAM[0x1FE1] += b | 1 }
+		s.CPU.OnWDM = func(b byte) {
+			s.WRAM[0x1FE0]++
+			s.CPU.OnWDM = second
+		}
+	}
 	n := int(sc.C("nhooks"))
 	if n <= 0 {
 		return
